@@ -117,6 +117,30 @@ Theorem C17_relinks_complete :
 Proof. exact gen_relinks_complete. Qed.
 Print Assumptions C17_relinks_complete.
 
+(* 9. Independence of a copy at the level of the descriptor table: NO row of the regenerated table makes the reader copy
+   an address verbatim.  Each row is classified from the regenerated dtypes, C types and record layouts: no address at
+   all / member freshly allocated by the reader with address-free elements / freshly allocated AND every address-valued
+   element member re-linked by a regenerated fix-up loop (exactly particles, var_config) / audited: embedded reb_particle
+   records whose c, ap, sim hold no address (exactly ri_whfast.p_jh, ri_whfast512.pjh0; checked on every stream by the
+   searcher).  A new row whose reader path would copy an address falls into COPIES_ADDRESS and breaks the theorem.
+   And the reader writes no member outside the table rows (and their count members), so every other pointer member of
+   the copy keeps the NULL of reb_simulation_init. *)
+Theorem C17_no_row_copies_an_address : forallb (fun d => class_ok (row_class d)) (live table) = true.
+Proof. exact gen_no_verbatim_address. Qed.
+Print Assumptions C17_no_row_copies_an_address.
+
+Theorem C17_relinked_and_audited_rows :
+  rows_of FreshAndRelinked = ["particles"%string; "var_config"%string] /\
+  rows_of AuditedZero = ["ri_whfast.p_jh"%string; "ri_whfast512.pjh0"%string].
+Proof. exact gen_relinked_and_audited_rows. Qed.
+Print Assumptions C17_relinked_and_audited_rows.
+
+Theorem C17_reader_writes_only_row_members : forall legacy tbl f k v, In (k, v) (writes legacy tbl f) ->
+  (exists d, find_desc tbl (f_type f) = Some d /\ (fst k = d_member d \/ fst k = d_count d)) \/
+  fst k = "max_radius0"%string \/ fst k = "max_radius1"%string.
+Proof. exact reader_writes_only_row_members. Qed.
+Print Assumptions C17_reader_writes_only_row_members.
+
 (* Non-vacuity of the hypotheses of 1, 2, 4: two one-particle streams differing in x. *)
 Example C17_hypotheses_inhabited :
   let f1 := mkfield pid_gen (le_enc 8 4607182418800017408 ++ repeat 0 120) in
